@@ -4,8 +4,11 @@ import json, os, struct
 import vcheck
 from vcheck import sh, BIN, REPO
 
-GO_CMDS = ["h_table"]
-COQ_PROJECTS = ["Table"]
+# coq/Table/GrammarTie.v proves that the HAVING derivation trees are derivations of the grammar table regenerated from
+# grammar.SemanticBQL(): the Table project therefore needs the Grammar project and its translator
+GO_CMDS = ["gengrammar", "h_table"]
+TRANSLATORS = ["gengrammar"]
+COQ_PROJECTS = ["Grammar", "Table"]
 
 TRUSTED = vcheck.STD_TRUSTED + [
     "formatted strings (Node/Predicate/Literal String, %032f, RFC3339Nano) are shipped per cell by the harness; only "
